@@ -22,9 +22,15 @@ PROP = dict(
           "documents built by construction (rapidcheck in C++, Hypothesis in Python): arbitrary inter-token whitespace, all escapes incl. "
           "\\/ and \\u0000-\\u00ff in both hex cases, raw ASCII 0x20-0x7F, number forms -0, 0.5, 1e5, 1E+2, 5e-1, 1.25E-3, integers to "
           "the int64 boundaries, integer parts of 1..25 digits for non-integers, exponents keeping the value within 1e-290..1e290, "
+          "a quarter of the exponents spelled with leading zeros (1..3 or 0..20 of them; enumerated: 0..20 leading zeros x 7 exponent "
+          "values x {none,+,-} x 5 mantissas), "
           "un-normalised mantissas (integer parts of up to 38 digits, 0.000..d with up to 35 leading zeros) whose exponent alone runs to "
           "+-327 while the value stays within 1e-290..1e291 (random, and enumerated: 74 mantissa scales x 11 value scales), unique "
-          "keys, empty containers anywhere, nesting up to 500; each with a generated suffix (reader extent), trailing whitespace and "
+          "keys, empty containers anywhere, nesting up to 500; one document in 40 (C++) / one in 6 (Python) is a container of 2..5 "
+          "strings - keys and values - with structural characters in bulk (up to 2600 of [ ] { } , : / blank, escaped quotes, escaped "
+          "backslashes: runs of one element, mostly-opening mixes, uniform mixes, text that looks like nested containers; documents of "
+          "1..30 KB) each ending in nothing, 1..3 escaped backslashes or an escaped quote (enumerated: 5 endings of a first string x "
+          "bulk strings of 300/1200/2500 elements of every theme and element, as list items and as key + value); each with a generated suffix (reader extent), trailing whitespace and "
           "trailing garbage; plus documents with exactly one injected extension (trailing comma, hex integer, n/t/f, // comment); "
           "non-trivial = nesting >= 2 and a fraction/exponent numeral or an escape (every extension case counts). (c) every proper prefix "
           "and every single-byte delete/replace/insert over 28 structural bytes of 47 fixed documents and 21 fixed non-standard texts (complete) and of generated documents; "
@@ -36,7 +42,10 @@ PROP = dict(
           "accepted with the reference value and extent whatever was parsed or rejected before it; non-trivial = a standard document "
           "is read after a rejected text. Distinct = distinct case encodings (hash)."),
     assumptions=["bracket nesting <= 500: inputs with more than 500 opening brackets are skipped and counted",
-                 "numerals with an exponent of more than 3 digits are skipped and counted (outside the stated domain; they only make the scanner loop up to 2^31 times)",
+                 "numerals whose exponent VALUE exceeds 999 (more than 3 digits after its leading zeros) are skipped and counted (outside the stated domain; they only make "
+                 "the scanner loop up to 2^31 times); the spelling does not count: exp = e [+-] 1*DIGIT, so 1e0000000002 is the number 100 and is checked",
+                 "the textual skip rule of the fuzz target and of the edit enumeration counts [ and { anywhere in the text (also inside strings); the grammar documents "
+                 "are classified by the reference reader, so brackets inside strings do not count as nesting there",
                  "a document counts as 'standard-compliant inside the domain' when the reference reader accepts it and it has unique keys, no raw byte >= 0x80 in strings, "
                  "\\u escapes <= U+00FF, plain integers within int64, non-integers that are zero or within 1e-300..1e300 in magnitude, and at most 40 digits per numeral",
                  "non-integer numbers are compared to 1e-9 relative (phosg's scanner is not correctly rounded), integers exactly; an integer-valued numeral with an exponent may come back as int or float",
@@ -55,6 +64,6 @@ PROP = dict(
                 "modes; any text that makes the parser crash, read outside its input, throw an undocumented exception type, disagree "
                 "between entry points, mis-value a standard document, accept an extension in strict mode or mis-report the extent of a "
                 "value is reported with a replay file. It does not prove totality for all byte strings."),
-    level_note=("Trusts CPython's json module and the harness reader as references; the 1e-9 tolerance, the 3-digit exponent cut and the "
+    level_note=("Trusts CPython's json module and the harness reader as references; the 1e-9 tolerance, the cut at exponent values above 999 and the "
                 "1e-300..1e300 range are deliberate limits (DESIGN.md section 6)."),
 )
